@@ -270,6 +270,12 @@ class World:
                     bad('decreased', f'local vector decreased: {before} -> {after}')
                 if bool(fired) != rose or fired > 1:
                     bad(f'missing-callback|fired={fired}|rose={rose}', f'missing-data callback fired {fired} time(s) for {v} on {before} (some entry rose: {rose})')
+                # a vector that is behind the local one in an entry it lists (its sender lacks data we know of) has to be answered:
+                # the instance waits for a suppression period before it does (unless the callback published meanwhile)
+                behind = any(s < before.get(k, 0) for k, s in v.items())
+                if behind and state_before == 'SyncSteady' and not republished and self.inst.state.name != 'SyncSuppression':
+                    bad('outdated-vector-not-answered', f'received {v} is behind the local vector {before} in an entry it lists, but no suppression '
+                                                        f'period was started (state {self.inst.state.name})')
                 # suppression bookkeeping (from the instance's public state)
                 if self.inst.state.name == 'SyncSuppression':
                     if state_before == 'SyncSuppression' and self.H is not None:
@@ -483,8 +489,8 @@ def run_relay(seq):
 RELAY_OPS = ['pubA', 'pubB', 'A>B', 'B>A']
 
 
-RESTART_KINDS = ('same-loop-settled', 'same-loop-immediately', 'second-loop', 'second-loop-twice')
-RESTART_PRE = ((), ('pub',), ('recv',), ('pub', 'recv'), ('recv-outdated',))
+RESTART_KINDS = ('same-loop-settled', 'same-loop-immediately', 'second-loop', 'second-loop-twice', 'publish-while-stopped')
+RESTART_PRE = ((), ('pub',), ('recv',), ('pub', 'recv'), ('recv-outdated',), ('tick',), ('pub', 'tick'))
 
 
 def run_restart(kind, pre):
@@ -501,6 +507,10 @@ def run_restart(kind, pre):
         for op in pre:
             if op == 'pub':
                 w.inst.new_data()
+            elif op == 'tick':
+                nxt0 = w.loop.next_timer_us()
+                if nxt0 is not None:
+                    w.loop.advance_to_us(nxt0)      # the periodic timer fires once and is armed again
             elif op == 'recv':
                 w.inst.sync_handler(base + [vec_component({'p': 2}), ts.tlv(2, b'\x00' * 32)], None, lambda d: True, {})
             else:
@@ -532,15 +542,25 @@ def run_restart(kind, pre):
                 inst.start(w.app)
                 w.loop.drain()
                 w.nsent = len(w.face.sent)
+            elif kind == 'publish-while-stopped':
+                w.inst.stop()
+                w.loop.drain()
+                w.new_interests()
+                seq0 = w.inst.self_seq
+                got = w.inst.new_data()         # the application publishes while the instance is stopped ...
+                w.loop.drain()
+                w.inst.start(w.app)             # ... and the announcement goes out promptly once it runs again
             else:
                 w.inst.stop()
                 if kind == 'same-loop-settled':
                     w.loop.drain()
                 w.inst.start(w.app)
                 w.loop.drain()
-            w.new_interests()
-        seq0 = w.inst.self_seq
-        got = w.inst.new_data()
+            if kind != 'publish-while-stopped':
+                w.new_interests()
+        if kind != 'publish-while-stopped':
+            seq0 = w.inst.self_seq
+            got = w.inst.new_data()
         w.loop.drain()
         vecs = sync_vectors(w.new_interests())
         want = nz(w.local())
